@@ -124,12 +124,16 @@ func TestRun(t *testing.T) {
 					}
 					resp := pool.NewMessage(context.Background())
 					w := responsewriter.New[nopClient](resp, nopClient{}, opts...)
-					err := w.SetResponse(codes.Code(code), message.TextPlain, bytes.NewReader([]byte("x")))
+					var ropts []message.Option
+					if env%2 == 1 {
+						ropts = []message.Option{{ID: message.ETag, Value: []byte{0xca, 0xfe}}}
+					}
+					err := w.SetResponse(codes.Code(code), message.TextPlain, bytes.NewReader([]byte("x")), ropts...)
 					if (err != nil) != want {
 						rec.Violation(sig("SetResponse", v, code, want), fmt.Sprintf("SetResponse(code=%d.%02d) with request No-Response=%d (request options: %s) returned %v, rule says suppressed=%v", code>>5, code&31, v, envNames[env], err, want), map[string]any{"value": v, "code": code, "env": envNames[env]})
 					}
 					if err != nil && resp.IsModified() {
-						rec.Violation("C20/SetResponse/refused-but-message-modified", fmt.Sprintf("code=%d value=%d", code, v), nil)
+						rec.Violation("C20/SetResponse/refused-but-message-modified", fmt.Sprintf("code=%d value=%d response options passed=%d", code, v, len(ropts)), nil)
 					}
 					rec.Count("setresponse_calls", 1)
 				}
@@ -219,7 +223,12 @@ func runUDP(rec *vr.Rec, cases []e2eCase) {
 			if len(b) != 1 || len(r.Token()) != 4 {
 				return
 			}
-			err := w.SetResponse(codes.Code(b[0]), message.TextPlain, bytes.NewReader([]byte("r")))
+			// every other handler passes response options of its own through SetResponse
+			var ropts []message.Option
+			if r.Token()[3]&1 == 1 {
+				ropts = []message.Option{{ID: message.ETag, Value: []byte{0xca, 0xfe}}, {ID: message.MaxAge, Value: []byte{60}}}
+			}
+			err := w.SetResponse(codes.Code(b[0]), message.TextPlain, bytes.NewReader([]byte("r")), ropts...)
 			mu.Lock()
 			k := binary.BigEndian.Uint32(r.Token())
 			if results[k] == nil {
@@ -342,7 +351,12 @@ func runTCP(rec *vr.Rec, cases []e2eCase) {
 			if len(b) != 1 || len(r.Token()) != 4 {
 				return
 			}
-			err := w.SetResponse(codes.Code(b[0]), message.TextPlain, bytes.NewReader([]byte("r")))
+			// every other handler passes response options of its own through SetResponse
+			var ropts []message.Option
+			if r.Token()[3]&1 == 1 {
+				ropts = []message.Option{{ID: message.ETag, Value: []byte{0xca, 0xfe}}, {ID: message.MaxAge, Value: []byte{60}}}
+			}
+			err := w.SetResponse(codes.Code(b[0]), message.TextPlain, bytes.NewReader([]byte("r")), ropts...)
 			mu.Lock()
 			k := binary.BigEndian.Uint32(r.Token())
 			if results[k] == nil {
